@@ -3,6 +3,7 @@ package engb
 import (
 	"fmt"
 	"go/token"
+	"go/types"
 	"strings"
 
 	"golang.org/x/tools/go/ssa"
@@ -595,12 +596,31 @@ func (a *Analyzer) AccumulatorStartsEmpty(fn string) []RuleResult {
 // cache (whose key is decided by B-MEMO).
 func (a *Analyzer) RefCacheScope() []RuleResult {
 	var out []RuleResult
-	perFile := map[string]bool{} // struct type names allocated in newSchemaGenerator
+	perFile := map[string]bool{}      // struct type names allocated in newSchemaGenerator
+	freshField := map[string]bool{}   // "<owner type>#<field index>": the field is initialised there with a map made in that very call
+	staleField := map[string]string{} // ... or with something else (what)
 	if f := a.P.Func("pkg/generator.newSchemaGenerator"); f != nil {
 		for _, b := range f.Blocks {
 			for _, in := range b.Instrs {
 				if al, ok := in.(*ssa.Alloc); ok {
 					perFile[al.Type().String()] = true
+				}
+				st, ok := in.(*ssa.Store)
+				if !ok {
+					continue
+				}
+				fa, ok := st.Addr.(*ssa.FieldAddr)
+				if !ok {
+					continue
+				}
+				if _, isMap := st.Val.Type().Underlying().(*types.Map); !isMap {
+					continue
+				}
+				k := fmt.Sprintf("%s#%d", fa.X.Type().String(), fa.Field)
+				if _, ok := st.Val.(*ssa.MakeMap); ok {
+					freshField[k] = true
+				} else {
+					staleField[k] = st.Val.String()
 				}
 			}
 		}
@@ -629,6 +649,11 @@ func (a *Analyzer) RefCacheScope() []RuleResult {
 					if mf, ok := ml.X.(*ssa.FieldAddr); ok {
 						owner = mf.X.Type().String()
 						okScope = perFile[owner]
+						k := fmt.Sprintf("%s#%d", owner, mf.Field)
+						if okScope && !(freshField[k] && staleField[k] == "") {
+							okScope = false
+							owner += " but is not created afresh for each file in newSchemaGenerator (initialised from " + staleField[k] + ")"
+						}
 					}
 				}
 				out = append(out, RuleResult{"B-REFCACHE", a.P.FuncName(f), "map keyed by the raw $ref belongs to the per-file generator", a.P.InstrPos(mu), okScope,
